@@ -79,6 +79,55 @@ func c06Judge(st *c06State, in string) (sig, detail string, accepted bool) {
 	return "", "", false
 }
 
+// parseOnly is a node.Parser that parses with the real parser (so that errors are reported as usual) but hands
+// back no trees: nothing is executed. It records the inputs it was given.
+type parseOnly struct{ inputs []string }
+
+func (p *parseOnly) Parse(in string) ([]node.Type, node.ParserError) {
+	p.inputs = append(p.inputs, in)
+	_, err := parser.Parse(in)
+	if err != nil {
+		return nil, err
+	}
+	return nil, nil
+}
+
+const c06Marker = `write("@@after@@")`
+
+// c06ViaLoop types the input, then a marker line, into the real read-eval loop (line accumulation by complete(),
+// processInput, reportError) under lexer and parser fuel. The loop must come back; and when the input holds no quote,
+// brace or bracket (nothing that could make it incomplete) the marker line must reach the parser as an input of its own.
+func c06ViaLoop(in string) (sig, detail string) {
+	lines := append(strings.Split(in, "\n"), c06Marker)
+	s := impl.NewSession()
+	s.SetFuel(100000)
+	po := &parseOnly{}
+	budget := 3000 * (len(in) + 64) * (len(lines) + 1)
+	ticks := 0
+	_, pan := captureReport(func() {
+		lexer.VerifTick = func() {
+			ticks++
+			if ticks > budget {
+				panic(impl.FuelPanic{What: "lexer"})
+			}
+		}
+		node.VerifLoop(node.NewVerifLineReader(lines), po, s.VM, true)
+	})
+	q := fmt.Sprintf("%q", clipStr(in, 200))
+	if pan != "" {
+		if strings.Contains(pan, "lexer") && ticks > budget {
+			return "read-eval-loop-hang", fmt.Sprintf("%s typed into the read-eval loop: it did not come back within %d lexer/parser steps", q, budget)
+		}
+		return "read-eval-loop-panic:" + pan, q + " typed into the read-eval loop: " + pan
+	}
+	if !strings.ContainsAny(in, "\"{}[]") {
+		if len(po.inputs) == 0 || po.inputs[len(po.inputs)-1] != c06Marker {
+			return "read-eval-loop-swallows-next-line", fmt.Sprintf("%s typed into the read-eval loop, then the line %s: the inputs handed to the parser were %q", q, c06Marker, po.inputs)
+		}
+	}
+	return "", ""
+}
+
 func clipStr(s string, n int) string {
 	if len(s) > n {
 		return s[:n/2] + "…" + s[len(s)-n/2:]
@@ -104,8 +153,8 @@ func init() {
 	core.Register(&core.Check{
 		ID:    "C06",
 		Level: "exploration",
-		Rule: "(i) all strings over a 16-symbol alphabet {1 a blank newline \" \\ ; + ( ) { } [ . = £} up to length 5 (quick) / 6 (thorough); (ii) all token sequences over a 27-token alphabet (keywords, literals, brackets, separators, operators, newline) up to length 4 (quick) / 5 (thorough); (iii) scaling families: integer literals of 1..40 digits, floats up to 400 digits, every bracket kind nested 1..200, 1000, 10000 deep, a valid program truncated at every position and continued by an unterminated string / comment / escape or an invalid byte, empty input; (iv) marker statements followed by a syntax error through the built cmd/calc binary in -eval, file and piped-REPL mode. " +
-			"Each input: parser.Parse under lexer+parser fuel must return without panic; a reported error must have a span inside the input, reportError must print message/source/caret without failing, and processInput must leave code, data, globals and output (apart from the report) untouched. distinct = distinct input; non-trivial = inputs of at least 2 tokens/characters that reach the parser (no lexer error)",
+		Rule: "(i) all strings over a 16-symbol alphabet {1 a blank newline \" \\ ; + ( ) { } [ . = £} up to length 5 (quick) / 6 (thorough); (ii) all token sequences over a 27-token alphabet (keywords, literals, brackets, separators, operators, newline) up to length 4 (quick) / 5 (thorough); (iii) scaling families: integer literals of 1..40 digits, floats up to 400 digits, every bracket kind nested 1..200, 1000, 10000 deep, a valid program truncated at every position and continued by an unterminated string / comment / escape or an invalid byte, empty input; (iii') errors at every distance from both ends of lines of 60..1000 characters, alone and inside multi-line inputs; (iv) marker statements followed by a syntax or lexical error (stray closers, NUL bytes, out-of-range literals, open strings) through the built cmd/calc binary in -eval, file and piped-REPL mode, followed by a further statement; (v) every input of (iii), every token sequence and string one step shorter than the bound typed line by line into the real read-eval loop with a parse-only parser. " +
+			"Each input: parser.Parse under lexer+parser fuel must return without panic; a reported error must have a span inside the input, reportError must print message/source/caret without failing, and processInput must leave code, data, globals and output (apart from the report) untouched; the read-eval loop must come back within its fuel and, for inputs without quote, brace or bracket, hand the following line to the parser as an input of its own; the binary must not abort or hang, and must run the statement that follows such an input. distinct = distinct input; non-trivial = inputs of at least 2 tokens/characters that reach the parser (no lexer error)",
 		Assumptions: []string{
 			"fuel: lexer loop iterations + TLexer.Next + TLexer.Snapshot calls, budget 2000 per input byte (measured maximum on the grammar: about 50 per byte)",
 			"resource exhaustion of the host (Go stack on nesting deeper than 10000) is outside the bound",
@@ -116,6 +165,12 @@ func init() {
 			p := stmtsOf(payload)
 			if len(p) == 2 && p[0] == "binary" {
 				return c06BinaryItem(ensureCalcBinary(), strings.TrimPrefix(p[1], "-eval "))
+			}
+			if len(p) == 2 && (p[0] == "binary-file" || p[0] == "binary-repl") {
+				return c06BinaryScript(ensureCalcBinary(), strings.TrimPrefix(p[0], "binary-"), p[1])
+			}
+			if len(p) == 2 && p[0] == "loop" {
+				return c06ViaLoop(p[1])
 			}
 			s, d, _ := c06Judge(&c06State{}, p[0])
 			return s, d
@@ -128,6 +183,7 @@ func c06Run(w *core.W) {
 	impl.Init()
 	st := &c06State{}
 	n := 0
+	viaLoop := true
 	judge := func(in string) bool {
 		if !w.Mine(in) {
 			return true
@@ -135,6 +191,12 @@ func c06Run(w *core.W) {
 		sig, detail, accepted := c06Judge(st, in)
 		if sig != "" {
 			w.Fail(payloadOf([]string{in}), sig, detail)
+		}
+		if viaLoop && sig == "" && strings.Count(in, "\n") <= 300 {
+			w.Count("typed_into_read_eval_loop", 1)
+			if lsig, ldetail := c06ViaLoop(in); lsig != "" {
+				w.Fail(payloadOf([]string{"loop", in}), lsig, ldetail)
+			}
 		}
 		if accepted {
 			w.Count("accepted", 1)
@@ -177,6 +239,26 @@ func c06Run(w *core.W) {
 			judge(strings.Repeat("-", d) + "1")
 			judge(strings.Repeat("- ", d) + "1")
 		}
+		// errors at every distance from both ends of long lines, alone and inside a multi-line input
+		for _, L := range []int{60, 100, 119, 120, 121, 122, 179, 180, 181, 239, 240, 241, 245, 300, 1000} {
+			var b strings.Builder
+			b.WriteString("x = [")
+			for b.Len() < L-2 {
+				b.WriteString("1, ")
+			}
+			line := b.String()[:L-2] + "1]"
+			for pos := 5; pos < len(line); pos++ {
+				if pos > 70 && pos < len(line)-70 && pos%13 != 0 {
+					continue
+				}
+				for _, bad := range []string{",,", " ) ", "£"} {
+					broken := line[:pos] + bad + line[pos:]
+					judge(broken)
+					judge("[\n" + broken + "\n]")
+					judge("{\ny = 1\n" + broken + "\nz = 2\n}")
+				}
+			}
+		}
 		prog := "f = (a, b) -> {\n  x = [1, \"s\"] + a[0:1]\n  if !(x == b) return 1.5 else yield x\n}\nfor i <- f(1, 2) write(i) ; c"
 		for i := 0; i <= len(prog); i++ {
 			judge(prog[:i])
@@ -195,6 +277,7 @@ func c06Run(w *core.W) {
 	}
 	ok := true
 	gen.Seqs(len(c06Tokens), 0, maxTok, func(seq []int) bool {
+		viaLoop = len(seq) < maxTok
 		parts := make([]string, len(seq))
 		for i, x := range seq {
 			parts[i] = c06Tokens[x]
@@ -213,6 +296,7 @@ func c06Run(w *core.W) {
 		maxLen = 6
 	}
 	gen.Seqs(len(c06Alphabet), 0, maxLen, func(seq []int) bool {
+		viaLoop = len(seq) < maxLen
 		var b strings.Builder
 		for _, x := range seq {
 			b.WriteString(c06Alphabet[x])
@@ -234,7 +318,7 @@ func c06Run(w *core.W) {
 func c06Binary(w *core.W) {
 	w.Family("binary-modes")
 	markers := []string{"write(7)", "x = 1\nwrite(7)", "{\nwrite(7)\n}"}
-	garbage := []string{" )", "\n)", " 1 2 +", "\n1 +", " £", " \"open", "\n}", " else 1"}
+	garbage := []string{" )", "\n)", " 1 2 +", "\n1 +", " £", " \"open", "\n}", " else 1", "\x00", " \x00", "\n\x00", " 9\x00 1", " 99999999999999999999", "\n99999999999999999999", " (99999999999999999999", "\n\"ab\\", " ; c\x00"}
 	for _, m := range markers {
 		for _, g := range garbage {
 			in := m + g
@@ -242,8 +326,24 @@ func c06Binary(w *core.W) {
 			if pr.Err == "" {
 				continue // not an erroneous input after all
 			}
-			if strings.Contains(m, "\n") {
-				continue // -eval takes a single line; multi-line inputs are C16's subject
+			calcBinaryPath = w.CalcBinary
+			for _, mode := range []string{"file", "repl"} {
+				if mode == "repl" && strings.ContainsAny(in, "\x00\x01\x02\x03\x04") {
+					// the REPL reads through a line editor (chzyer/readline) that takes control characters as
+					// editing keys: such bytes never reach calc's front end (DESIGN §0.5)
+					continue
+				}
+				key := mode + " " + in
+				if !w.Mine(key) {
+					continue
+				}
+				w.NonTrivial()
+				if sig, detail := c06BinaryScript(w.CalcBinary, mode, in); sig != "" {
+					w.Fail(payloadOf([]string{"binary-" + mode, in}), sig, detail)
+				}
+			}
+			if strings.Contains(m, "\n") || strings.Contains(in, "\x00") {
+				continue // -eval takes a single line (multi-line inputs are C16's subject), and an argument cannot hold a NUL byte
 			}
 			key := "-eval " + in
 			if !w.Mine(key) {
@@ -256,6 +356,35 @@ func c06Binary(w *core.W) {
 			}
 		}
 	}
+}
+
+// c06BinaryScript: the erroneous input followed by a marker statement as a script file and piped into the REPL.
+func c06BinaryScript(bin, mode, in string) (sig, detail string) {
+	script := in + "\nwrite(\"@@after@@\")\n"
+	var out string
+	var err error
+	if mode == "file" {
+		fn := filepath.Join(c16ScratchDir(), fmt.Sprintf("c06-%d.calc", os.Getpid()))
+		if werr := os.WriteFile(fn, []byte(script), 0o644); werr != nil {
+			return "harness:cannot-run-binary", werr.Error()
+		}
+		out, err = runCalc(bin, "", fn)
+	} else {
+		out, err = runCalc(bin, script)
+	}
+	if err != nil {
+		return binarySig(err, mode), fmt.Sprintf("%q in %s mode: %v", in, mode, err)
+	}
+	if strings.Contains(out, "panic:") || strings.Contains(out, "fatal error:") {
+		return "binary-abort:" + mode, fmt.Sprintf("%q in %s mode aborted: %q", in, mode, clipStr(out, 400))
+	}
+	if strings.Contains(out, "7") && !strings.Contains(in, "7\n") {
+		// (the marker statement of the input is `write(7)`; an input whose first line is complete and valid may run it)
+	}
+	if !strings.ContainsAny(in, "\"{}[]") && !strings.Contains(out, "@@after@@") {
+		return "session-lost-after-front-end-error:" + mode, fmt.Sprintf("%q followed by a further statement in %s mode: the further statement did not run, output %q", in, mode, clipStr(out, 300))
+	}
+	return "", ""
 }
 
 func c06BinaryItem(bin, in string) (sig, detail string) {
